@@ -3,6 +3,7 @@ from contracts import ancillary as A
 from contracts import core as K
 from contracts import formulas as F
 
+from contracts import wrappers as W
 ID = "C05"
 LEVEL = "other"
 TRUSTED = ["A1 real arithmetic", "A2 numpy.interp(left=nan,right=nan), element-wise ufuncs, complex sqrt principal branch",
@@ -15,7 +16,7 @@ EXPLANATION = ("Deductive: xray_wavelength/xray_energy (E*lambda == hc 1e7, roun
 
 
 def units(tier):
-    return [A.U_XWAVELENGTH, A.U_XENERGY, A.U_XROUNDTRIP] + A.U_SCATTERING_FACTORS + A.U_XRAY_SLD + A.U_INDEX_OF_REFRACTION + A.U_FXRAY_KEYS + [F.U_FORMULA_XRAY_SLD, K.L_REGISTRATION]
+    return ([A.U_XWAVELENGTH, A.U_XENERGY, A.U_XROUNDTRIP] + A.U_SCATTERING_FACTORS + A.U_XRAY_SLD + A.U_INDEX_OF_REFRACTION + A.U_FXRAY_KEYS + [F.U_FORMULA_XRAY_SLD, K.L_REGISTRATION]) + [W.U_PKG[5], W.U_FROM_ATOMS[1], A.U_FXRAYATQ, A.U_XRAY_F0, A.U_XRAY_ELEMENT_SYMBOL, A.U_XRAY_SLD_METHOD]
 
 
 def runner_tasks(tier):
